@@ -1,5 +1,6 @@
 """Shared machinery of the checks: paths, Coq build/eval, shape extraction (S), evidence, violations, known findings."""
 import ast
+import copy
 import contextlib
 import fcntl
 import hashlib
@@ -317,10 +318,62 @@ def find_def(tree, qualname):
 	return node
 
 
+_UNSAFE_CALLS = {'locals', 'vars', 'eval', 'exec', 'globals', 'dir'}
+
+
+def _bound_names(func):
+	"""Names bound by assignment-like constructs inside a function body, or None when the function has a construct this simple
+	reading does not cover (nested scopes other than comprehensions, global/nonlocal, handlers binding a name, imports, match)."""
+	params = {a.arg for a in func.args.posonlyargs + func.args.args + func.args.kwonlyargs}
+	if func.args.vararg:
+		params.add(func.args.vararg.arg)
+	if func.args.kwarg:
+		params.add(func.args.kwarg.arg)
+	bound = []
+	for node in ast.walk(func):
+		if node is func:
+			continue
+		if isinstance(node, (ast.FunctionDef, ast.AsyncFunctionDef, ast.Lambda, ast.ClassDef, ast.Global, ast.Nonlocal, ast.Import, ast.ImportFrom)):
+			return None
+		if isinstance(node, ast.ExceptHandler) and node.name:
+			return None
+		if type(node).__name__.startswith('Match'):
+			return None
+		if isinstance(node, ast.Call) and isinstance(node.func, ast.Name) and node.func.id in _UNSAFE_CALLS:
+			return None
+		if isinstance(node, ast.Name) and isinstance(node.ctx, (ast.Store, ast.Del)) and node.id not in params and node.id not in bound:
+			bound.append(node.id)
+	return bound
+
+
+def normalise_locals(node):
+	"""Returns a copy of an anchor node in which, per function, every name the function binds itself (not its parameters) is
+	replaced by a canonical one in order of first binding occurrence: two functions that differ by a consistent renaming of such
+	names get the same skeleton."""
+	node = copy.deepcopy(node)
+	for func in [n for n in ast.walk(node) if isinstance(n, (ast.FunctionDef, ast.AsyncFunctionDef))]:
+		bound = _bound_names(func)
+		if not bound:
+			continue
+		# order of first occurrence in source order (ast.walk is breadth first: sort by position)
+		first = {}
+		for n in ast.walk(func):
+			if isinstance(n, ast.Name) and n.id in bound:
+				key = (n.lineno, n.col_offset)
+				if n.id not in first or key < first[n.id]:
+					first[n.id] = key
+		mapping = {name: f'%{index}' for index, name in enumerate(sorted(first, key=lambda name: first[name]))}
+		for n in ast.walk(func):
+			if isinstance(n, ast.Name) and n.id in mapping:
+				n.id = mapping[n.id]
+	return node
+
+
 def shape_of(node):
 	"""Returns (skeleton, atoms): the AST with constants/operators erased, and the erased atoms in traversal order.
 	Docstrings are dropped.  Atoms are ('c', value) for constants and ('o', name) for operators."""
 	atoms = []
+	node = normalise_locals(node)
 
 	def walk(n):
 		if isinstance(n, ast.Constant):
